@@ -5,8 +5,8 @@ use educe::Educe;
 use core::cmp::Ordering;
 #[derive(Educe)]
 #[educe(Hash)]
-pub enum T { Unit, Some(#[educe(Hash(ignore(true)))] A<0>, A<0>) }
-pub fn values() -> Vec<T> { vec![T::Unit, T::Some(A(0), A(0)), T::Some(A(0), A(1)), T::Some(A(0), A(7)), T::Some(A(1), A(0)), T::Some(A(1), A(1)), T::Some(A(1), A(7)), T::Some(A(7), A(0)), T::Some(A(7), A(1)), T::Some(A(7), A(7))] }
-pub fn show(x: &T) -> String { #[allow(unused_variables)] match x { T::Unit => format!("Unit()"), T::Some(p0, p1) => format!("Some({},{})", sv(p0), sv(p1)) } }
-pub fn o_hash(x: &T) -> Vec<String> { let mut e = Rec::default(); match x { T::Unit => { ::core::hash::Hash::hash(&0usize, &mut e); }, T::Some(p0, p1) => { ::core::hash::Hash::hash(&1usize, &mut e); ::core::hash::Hash::hash(p1, &mut e); } } e.0 }
+pub enum T { None { #[educe(Hash(ignore = true))] r#type: A<0>, #[educe(Hash(ignore))] arg: A<1> }, Unit { #[educe(Hash(method = "m_hash"))] builder: A<0>, x: A<1> } }
+pub fn values() -> Vec<T> { vec![T::None { r#type: A(0), arg: A(0) }, T::None { r#type: A(0), arg: A(1) }, T::None { r#type: A(0), arg: A(7) }, T::None { r#type: A(1), arg: A(0) }, T::None { r#type: A(1), arg: A(1) }, T::None { r#type: A(1), arg: A(7) }, T::None { r#type: A(7), arg: A(0) }, T::None { r#type: A(7), arg: A(1) }, T::None { r#type: A(7), arg: A(7) }, T::Unit { builder: A(0), x: A(0) }, T::Unit { builder: A(0), x: A(1) }, T::Unit { builder: A(0), x: A(7) }, T::Unit { builder: A(1), x: A(0) }, T::Unit { builder: A(1), x: A(1) }, T::Unit { builder: A(1), x: A(7) }, T::Unit { builder: A(7), x: A(0) }, T::Unit { builder: A(7), x: A(1) }, T::Unit { builder: A(7), x: A(7) }] }
+pub fn show(x: &T) -> String { #[allow(unused_variables)] match x { T::None { r#type: p0, arg: p1 } => format!("None({},{})", sv(p0), sv(p1)), T::Unit { builder: p0, x: p1 } => format!("Unit({},{})", sv(p0), sv(p1)) } }
+pub fn o_hash(x: &T) -> Vec<String> { let mut e = Rec::default(); match x { T::None { r#type: p0, arg: p1 } => { ::core::hash::Hash::hash(&0usize, &mut e); }, T::Unit { builder: p0, x: p1 } => { ::core::hash::Hash::hash(&1usize, &mut e); m_hash(p0, &mut e); ::core::hash::Hash::hash(p1, &mut e); } } e.0 }
 pub fn run(out: &mut Out) { let vs = values(); for a in &vs { let mut g = Rec::default(); ::core::hash::Hash::hash(a, &mut g); let e = o_hash(a); out.check(g.0 == e, "hash_6", "hash", || format!("hash({}) fed {:?} expected {:?}", show(a), g.0, e)); } }
